@@ -10,6 +10,9 @@ def enc(cp):
 BOUNDARY_CPS = [0x20, 0x21, 0x41, 0x61, 0x7E, 0x80, 0xA9, 0xE9, 0x3BB, 0x7FF, 0x800, 0x20AC, 0x2192, 0xD7FF, 0xE000, 0xFFFD, 0xFFFF,
                 0x10000, 0x1F600, 0x10FFFF]
 
+# Unicode White_Space other than the ASCII blank: the library separates words at the ASCII blank only (str::trim* would strip these too)
+WS_CPS = [0x85, 0xA0, 0x1680, 0x2000, 0x2003, 0x2009, 0x2028, 0x2029, 0x202F, 0x205F, 0x3000]
+
 def rand_cp(rng, ascii_weight=5):
     k = rng.randrange(ascii_weight + 4)
     if k < ascii_weight:
@@ -21,7 +24,7 @@ def rand_cp(rng, ascii_weight=5):
         return c if not (0xD800 <= c <= 0xDFFF) else 0x20AC
     if k == ascii_weight + 2:
         return rng.randrange(0x10000, 0x110000)
-    return rng.choice(BOUNDARY_CPS)
+    return rng.choice(BOUNDARY_CPS + WS_CPS) if rng.randrange(6) == 0 else rng.choice(BOUNDARY_CPS)
 
 def rand_char(rng, ascii_weight=5):
     cp = rand_cp(rng, ascii_weight)
